@@ -274,9 +274,14 @@ def make_wsgi(shape):
     payload = bytes(range(97, 97 + N))
     enc, core, _ = encode(shape, payload)
 
-    def q(k: int, f1: int, te: int, via_setup: bool):
+    # a server may pass the client's Content-Length along with Transfer-Encoding: chunked (both framings in one environ);
+    # Transfer-Encoding wins (RFC 7230 3.3.3), whatever the declared length says
+    lengths = [None, "", str(len(enc)), str(N), "0", str(len(enc) + 7)]
+
+    def q(k: int, f1: int, te: int, via_setup: bool, cl: int):
         assume(0 <= k <= len(enc))
         assume(1 <= f1 <= 3)
+        assume(0 <= cl < len(lengths))
         assume(0 <= te < len(TE_SPELLINGS))       # transfer-coding names are case-insensitive (RFC 7230 4)
         if via_setup:         # configured after construction (the only way to configure the module-level default app)
             app = ombott.Ombott()
@@ -293,6 +298,9 @@ def make_wsgi(shape):
         env = {"REQUEST_METHOD": "POST", "PATH_INFO": "/u", "wsgi.input": s, "HTTP_TRANSFER_ENCODING": TE_SPELLINGS[te],
                "wsgi.errors": type("E", (), {"write": staticmethod(lambda t: errs.write(t.encode()))}), "SERVER_NAME": "h",
                "SERVER_PORT": "80", "wsgi.url_scheme": "http"}
+        if lengths[cl] is not None:
+            env["CONTENT_LENGTH"] = lengths[cl]
+            cover("both-framings")
         got = []
         body = app(env, lambda st, hd, ei=None: got.append((st, hd)))
         body = b"".join(body)
@@ -764,7 +772,7 @@ def queries(tier):
                  "every byte string of length <= %d as a chunked body, buffer 8" % (3 if not T else 4),
                  timeout=200 if not T else 1000, expect_cover=["reject"], family="any"))
     for i, sh in list(enumerate(shapes(tier)))[:2 if not T else 4]:
-        out.append(Q("wsgi/s%d" % i, make_wsgi(sh), "Ombott.__call__: POST handler reading Request.body, stream cut at symbolic k: 400 iff cut inside the encoding; Transfer-Encoding spelled as one of %r" % (TE_SPELLINGS,),
+        out.append(Q("wsgi/s%d" % i, make_wsgi(sh), "Ombott.__call__: POST handler reading Request.body, stream cut at symbolic k: 400 iff cut inside the encoding; Transfer-Encoding spelled as one of %r; CONTENT_LENGTH absent, empty, = encoded length, = payload length, 0, too large" % (TE_SPELLINGS,),
                      timeout=120 if not T else 300, expect_cover=["400", "200"], family="wsgi", config=repr(sh)))
     out += size_queries(tier)
     return out
